@@ -55,6 +55,7 @@ type timeline struct {
 	NA2   int  `json:"na2"`
 	Grace int  `json:"grace"`
 	Two   bool `json:"two"`
+	Keep  bool `json:"keep"` // the update keeps the root certificate of S1 (default: rotated)
 }
 
 // trcsOf builds (cached) the TRC history of a time line: S1 with root 1, S2 with root 2.
@@ -68,7 +69,11 @@ func trcsOf(cw *pki.ChainWorld, cache map[timeline][]cppki.SignedTRC, tl timelin
 	}
 	res := []cppki.SignedTRC{s1}
 	if tl.Two {
-		s2 := cw.TRC(pki.ATRC{Serial: 2, Base: 1, NB: tl.NB2, NA: tl.NA2, Grace: tl.Grace, Roots: []int{2}})
+		s2roots := []int{2}
+		if tl.Keep {
+			s2roots = []int{1}
+		}
+		s2 := cw.TRC(pki.ATRC{Serial: 2, Base: 1, NB: tl.NB2, NA: tl.NA2, Grace: tl.Grace, Roots: s2roots})
 		if err := s2.Verify(&s1.TRC); err != nil {
 			vt.Fatal("generated TRC update does not verify: %v", err)
 		}
